@@ -10,6 +10,7 @@ import (
 	"runtime"
 	"sort"
 	"strings"
+	"time"
 
 	"github.com/mk6i/mkdb/sql"
 	"verif/lib"
@@ -136,6 +137,7 @@ type c09Run struct {
 	n      int64
 	panics int64
 	fails  map[string]int
+	prog   lib.Progress
 }
 
 func (r *c09Run) mine() bool {
@@ -201,6 +203,7 @@ func runC09(env *lib.Env, rep *lib.Report) {
 		return
 	}
 	voc := c09Vocabulary()
+	lib.StartWatchdog(env, rep, &r.prog, 45*time.Second, "parser-hang")
 	// ---- (i) byte strings
 	alphabet := []byte{'a', 'S', '1', '0', '\'', '"', '`', '\\', '\n', ' ', '(', ')', ',', '.', ';', '*', '=', '!', '<', '>', '-', '+', '/', '_', 0x00, 0x80, 0xff, 0xef, '\t', '9'}
 	maxLen := 5
@@ -213,6 +216,7 @@ func runC09(env *lib.Env, rep *lib.Report) {
 	rec = func(depth int) {
 		if depth > 0 && r.mine() {
 			s := string(buf)
+			r.prog.Set("bytes", s)
 			res, err, pan := c09ParseText(s)
 			r.judge("bytes", s, res, err, pan)
 		}
@@ -232,6 +236,7 @@ func runC09(env *lib.Env, rep *lib.Report) {
 		rec2 = func(depth int) {
 			if r.mine() {
 				s := lead + string(buf)
+				r.prog.Set("lead+bytes", s)
 				res, err, pan := c09ParseText(s)
 				r.judge("lead+bytes", s, res, err, pan)
 			}
@@ -254,6 +259,7 @@ func runC09(env *lib.Env, rep *lib.Report) {
 	var rect func(depth int)
 	rect = func(depth int) {
 		if depth > 0 && r.mine() {
+			r.prog.Set("tokens", strings.Join(names, " "))
 			res, err, pan := c09ParseTokens(toks)
 			r.judge("tokens", strings.Join(names, " "), res, err, pan)
 		}
@@ -280,6 +286,7 @@ func runC09(env *lib.Env, rep *lib.Report) {
 		rect2 = func(depth int) {
 			if depth == tokLen+1 {
 				if r.mine() {
+					r.prog.Set("tokens-reduced", strings.Join(names, " "))
 					res, err, pan := c09ParseTokens(toks)
 					r.judge("tokens-reduced", strings.Join(names, " "), res, err, pan)
 				}
@@ -310,6 +317,7 @@ func runC09(env *lib.Env, rep *lib.Report) {
 			if !r.mine() {
 				return
 			}
+			r.prog.Set(fam, render(ts))
 			res, err, pan := c09ParseTokens(ts)
 			r.judge(fam, render(ts), res, err, pan)
 		}
@@ -340,16 +348,19 @@ func runC09(env *lib.Env, rep *lib.Report) {
 			for _, qc := range []string{"'", "\"", "`"} {
 				s := q[:i] + qc + q[i:]
 				if r.mine() {
+					r.prog.Set("text:quote-inserted", s)
 					res, err, pan := c09ParseText(s)
 					r.judge("text:quote-inserted", s, res, err, pan)
 				}
 				s = q[:i] + qc
 				if r.mine() {
+					r.prog.Set("text:truncated+quote", s)
 					res, err, pan := c09ParseText(s)
 					r.judge("text:truncated+quote", s, res, err, pan)
 				}
 			}
 			if r.mine() {
+				r.prog.Set("text:truncated", q[:i])
 				res, err, pan := c09ParseText(q[:i])
 				r.judge("text:truncated", q[:i], res, err, pan)
 			}
@@ -368,6 +379,7 @@ func runC09(env *lib.Env, rep *lib.Report) {
 					nw[wi] = strings.Replace(wd, trimmed, big, 1)
 					s := strings.Join(nw, " ")
 					if r.mine() {
+						r.prog.Set("text:big-integer", s)
 						res, err, pan := c09ParseText(s)
 						r.judge("text:big-integer", s, res, err, pan)
 					}
